@@ -1,5 +1,7 @@
 package main
 
+import "os"
+
 // Branch feasibility.  Every live state carries a witness model of its path
 // condition (when the condition is evaluable, i.e. free of uninterpreted
 // functions), so one side of every branch is known feasible for free; the
@@ -43,6 +45,8 @@ func (ex *Exec) pcSlice(st *State, c *Term) []*Term {
 	return out
 }
 
+var auditDom = os.Getenv("GOSYM_AUDIT") != ""
+
 func overlay(base, over Model) Model {
 	m := make(Model, len(base)+len(over))
 	for k, v := range base {
@@ -72,6 +76,16 @@ func (ex *Exec) feasibleOne(st *State, c *Term) (bool, Model) {
 }
 
 func (ex *Exec) query(st *State, c *Term) (bool, Model) {
+	if f, m, ok := ex.domDecide(st, c); ok {
+		ex.domPrunes++
+		if auditDom {
+			r, _ := ex.solver.Check(append(append([]*Term(nil), st.pc...), c), false)
+			if (r == Sat) != f && r != Unknown {
+				ex.inconclusive("AUDIT: byte-domain decision disagrees with the solver at " + ex.where(st))
+			}
+		}
+		return f, m
+	}
 	conj := append(ex.pcSlice(st, c), c)
 	ex.queriesBr++
 	r, m := ex.solver.Check(conj, true)
